@@ -147,12 +147,12 @@ func (l *level) forFamily(qtype uint16) (vals []netip.Addr, exc bool) {
 
 // Outcome kinds.
 const (
-	oNotMatched  = "not_matched"  // no entry covers the name: forwarded intact
-	oPassExc     = "pass_exc"     // S4: exception at the queried name: original name resolved upstream, intact
-	oLocal       = "local"        // S2/S3: synthesised addresses
-	oEmpty       = "empty"        // S6: matched, no value for the type
-	oCnameUp     = "cname_up"     // S5: canonical name resolved upstream, original question + CNAME first
-	oUnspecified = "unspecified"  // only S1/S2
+	oNotMatched  = "not_matched" // no entry covers the name: forwarded intact
+	oPassExc     = "pass_exc"    // S4: exception at the queried name: original name resolved upstream, intact
+	oLocal       = "local"       // S2/S3: synthesised addresses
+	oEmpty       = "empty"       // S6: matched, no value for the type
+	oCnameUp     = "cname_up"    // S5: canonical name resolved upstream, original question + CNAME first
+	oUnspecified = "unspecified" // only S1/S2
 )
 
 type expectation struct {
@@ -165,7 +165,9 @@ type expectation struct {
 	// the deciding address level is a wildcard pattern that also carries the
 	// pass-through exception of the other family.
 	wildOtherExc bool
-	tags   []string
+	// a CNAME answer on the path is spelled with upper-case letters.
+	caseFold bool
+	tags     []string
 }
 
 func (e *expectation) tag(s string) { e.tags = append(e.tags, s) }
@@ -211,6 +213,9 @@ func resolve(table []Entry, qname string, qtype uint16) (ex *expectation) {
 				}
 			} else {
 				ex.tag("wildcard_cname")
+				if len(ex.chain) > 0 {
+					ex.tag("chain_through_wildcard")
+				}
 				n := 0
 				for _, l := range lv {
 					if !l.exact && len(l.cnames()) > 0 {
@@ -234,6 +239,11 @@ func resolve(table []Entry, qname string, qtype uint16) (ex *expectation) {
 				return ex
 			}
 			t := strings.ToLower(ts[0])
+			if t != ts[0] {
+				// Host names compare case-insensitively.
+				ex.caseFold = true
+				ex.tag("cname_answer_mixed_case")
+			}
 			if t == cl.pat || t == cur {
 				// "name to itself": pass-through exception.
 				ex.tag("self_reference")
